@@ -11,12 +11,22 @@ C11 driver.
      fn := <sym-hex> <argsize> <locals> <nosplit> <dupok> <topframe> <wrapper> <wantframe> <wantargs>
            <n> (line addr target+1)* <n> (instrIdx label-hex)* <n> (label-hex instrIdx)*
            (target+1 = 0: not a jump; = 2^40: a jump without decodable relative target)
+  hist <n> op*                            → per print of the history `<wf 0|1>:<hex of the model's text>` (`nofile` for an
+                                            empty slot; `-` when nothing is printed): Model/PrintHist `run` on the empty heap
+  accept-hist <n> op* <m> out*            → ok | bad-hist print=<k> …   (out := x | <output-hex>: the implementation's text of
+                                            every print, read back against the content the file has at that moment)
+     op := N <slot> <file> | D <slot> | I <slot> <what> | P <slot> <cfg> | E <slot> edit
+     edit := cons <0|1> <n> line-hex* | incl <n> hex* | secset <k> section | secins <k> section | secdel <k> | fn <k> fnedit
+     fnedit := name hex | attrs n | frame int | args int | isa <n> hex* | stub hex | doc <n> hex* | prag <n> pragma*
+             | iop <node> hex | isuf <node> <n> hex* | iops <node> <n> hex* | iflg <node> <term> <ubr>
+             | nset <node> node | nins <node> node | ndel <node> | nodes <n> node*
 -/
 import AvoVerif.Drv.Print
+import AvoVerif.Model.PrintHist
 import AvoVerif.Gen.TextFlags
 import AvoVerif.Oracle.TextFlagH
 namespace Avo.Drv.C11
-open Avo.Drv Avo.Drv.Print Avo.Print Avo.Attr
+open Avo.Drv Avo.Drv.Print Avo.Print Avo.Attr Avo.Print.Hist
 
 def names : List (Nat × String) := Avo.Gen.attrname
 
@@ -252,6 +262,135 @@ def acceptAsmE (f : File) (out : Txt) (fns : List AsmFn) : Option String :=
 
 def acceptAsm (f : File) (out : Txt) (fns : List AsmFn) : String := verdict (acceptAsmE f out fns)
 
+/-! ### histories (Model/PrintHist) -/
+
+def fnEditTok : P FnEdit
+  | "name" :: ts => do let (n, ts) ← txtTok ts; some (.name n, ts)
+  | "attrs" :: ts => do let (a, ts) ← attrTok ts; some (.attrs a, ts)
+  | "frame" :: ts => do let (v, ts) ← intTok ts; some (.frame v, ts)
+  | "args" :: ts => do let (v, ts) ← intTok ts; some (.args v, ts)
+  | "isa" :: ts => do let (l, ts) ← listOf txtTok ts; some (.isa l, ts)
+  | "stub" :: ts => do let (s, ts) ← txtTok ts; some (.stub s, ts)
+  | "doc" :: ts => do let (l, ts) ← listOf txtTok ts; some (.doc l, ts)
+  | "prag" :: ts => do let (l, ts) ← listOf pragmaTok ts; some (.pragmas l, ts)
+  | "iop" :: ts => do
+    let (n, ts) ← natTok ts
+    let (o, ts) ← txtTok ts
+    some (.instr n (.opcode o), ts)
+  | "isuf" :: ts => do
+    let (n, ts) ← natTok ts
+    let (l, ts) ← listOf txtTok ts
+    some (.instr n (.suffixes l), ts)
+  | "iops" :: ts => do
+    let (n, ts) ← natTok ts
+    let (l, ts) ← listOf txtTok ts
+    some (.instr n (.operands l), ts)
+  | "iflg" :: ts => do
+    let (n, ts) ← natTok ts
+    let (t, ts) ← boolTok ts
+    let (u, ts) ← boolTok ts
+    some (.instr n (.flags t u), ts)
+  | "nset" :: ts => do
+    let (n, ts) ← natTok ts
+    let (x, ts) ← nodeTok ts
+    some (.setNode n x, ts)
+  | "nins" :: ts => do
+    let (n, ts) ← natTok ts
+    let (x, ts) ← nodeTok ts
+    some (.insNode n x, ts)
+  | "ndel" :: ts => do let (n, ts) ← natTok ts; some (.delNode n, ts)
+  | "nodes" :: ts => do let (l, ts) ← listOf nodeTok ts; some (.nodes l, ts)
+  | _ => none
+
+def editTok : P Edit
+  | "cons" :: ts => do
+    let (h, ts) ← boolTok ts
+    let (l, ts) ← listOf txtTok ts
+    some (.constraints h l, ts)
+  | "incl" :: ts => do let (l, ts) ← listOf txtTok ts; some (.includes l, ts)
+  | "fn" :: ts => do
+    let (k, ts) ← natTok ts
+    let (e, ts) ← fnEditTok ts
+    some (.fn k e, ts)
+  | "secset" :: ts => do
+    let (k, ts) ← natTok ts
+    let (s, ts) ← secTok ts
+    some (.setSec k s, ts)
+  | "secins" :: ts => do
+    let (k, ts) ← natTok ts
+    let (s, ts) ← secTok ts
+    some (.insSec k s, ts)
+  | "secdel" :: ts => do let (k, ts) ← natTok ts; some (.delSec k, ts)
+  | _ => none
+
+def opTok : P Op
+  | "N" :: ts => do
+    let (i, ts) ← natTok ts
+    let (f, ts) ← fileTok ts
+    some (.new i f, ts)
+  | "D" :: ts => do let (i, ts) ← natTok ts; some (.drop i, ts)
+  | "E" :: ts => do
+    let (i, ts) ← natTok ts
+    let (e, ts) ← editTok ts
+    some (.edit i e, ts)
+  | "I" :: ts => do
+    let (i, ts) ← natTok ts
+    let (w, ts) ← natTok ts
+    some (.inspect i w, ts)
+  | "P" :: ts => do
+    let (i, ts) ← natTok ts
+    let (c, ts) ← cfgTok ts
+    some (.print i c, ts)
+  | _ => none
+
+/-- The hypotheses of `print_faithful` (and a non-negative frame), evaluated: the prints the acceptor judges. -/
+def wfCheck (cfg : Config) (f : File) : Bool :=
+  decide (WFFile names cfg f) && f.functions.all (fun fn => decide (0 ≤ fn.frame))
+
+/-- One print of the `hist` answer: the well-formedness bit of the file as it is then, and the model's text. -/
+def histCell (t : Option Txt) (st : Option (Config × File)) : String :=
+  match t, st with
+  | some t, some (cfg, f) => (if wfCheck cfg f then "1:" else "0:") ++ hexTxt t
+  | _, _ => "nofile"
+
+def histAnswer (ops : List Op) : String :=
+  match List.zipWith histCell (run names Heap.empty ops) (printStates Heap.empty ops) with
+  | [] => "-"
+  | cells => joinSp cells
+
+def outTok : P (Option Txt)
+  | "x" :: ts => some (none, ts)
+  | ts => (txtTok ts).map (fun p => (some p.1, p.2))
+
+/-- Every print of the history, judged on the implementation's own text of that print against the content the
+file has at that moment (the state of Model/PrintHist after the operations before the print): `none`, or the
+first print whose text does not say what the file says then.  A print of an empty slot and a print of a file
+whose tokens do not satisfy the hypotheses of `print_faithful` are not judged (the exact `hist` line covers them). -/
+def acceptHistE : Heap → List Op → List (Option Txt) → Nat → Option String
+  | _, [], [], _ => none
+  | _, [], _ :: _, k => some s!"bad-hist print={k} output-without-print"
+  | h, .print i cfg :: ops, outs, k =>
+    match outs with
+    | [] => some s!"bad-hist print={k} missing-output"
+    | o :: outs =>
+      match h i with
+      | none => acceptHistE h ops outs (k + 1)
+      | some f =>
+        if wfCheck cfg f then
+          match o with
+          | none => some s!"bad-hist print={k} no-text"
+          | some t =>
+            match acceptPrintE f t with
+            | some e => some s!"bad-hist print={k} {e}"
+            | none => acceptHistE h ops outs (k + 1)
+        else acceptHistE h ops outs (k + 1)
+  | h, .new i f :: ops, outs, k => acceptHistE (step h (.new i f)) ops outs k
+  | h, .drop i :: ops, outs, k => acceptHistE (step h (.drop i)) ops outs k
+  | h, .edit i e :: ops, outs, k => acceptHistE (step h (.edit i e)) ops outs k
+  | h, .inspect i w :: ops, outs, k => acceptHistE (step h (.inspect i w)) ops outs k
+
+def acceptHist (ops : List Op) (outs : List (Option Txt)) : String := verdict (acceptHistE Heap.empty ops outs 0)
+
 def handle : Handler
   | "print" :: ts => do
     let (cfg, ts) ← cfgTok ts
@@ -273,12 +412,19 @@ def handle : Handler
     let (out, ts) ← txtTok ts
     let (fns, _) ← listOf asmFnTok ts
     some (acceptAsm f out fns)
+  | "hist" :: ts => do
+    let (ops, _) ← listOf opTok ts
+    some (histAnswer ops)
+  | "accept-hist" :: ts => do
+    let (ops, ts) ← listOf opTok ts
+    let (outs, _) ← listOf outTok ts
+    some (acceptHist ops outs)
   -- verdicts measured by the harness with the Go toolchain / binutils
   | "accept-assembles" :: r :: _ => some (if r == "ok" then "ok" else "bad-assembler-rejects " ++ r)
   | "accept-decode" :: r :: _ => some (if r == "ok" then "ok" else "bad-decode " ++ r)
   | _ => none
 
 def handlers : List (String × Handler) :=
-  ["print", "wf", "accept-print", "accept-asm", "accept-assembles", "accept-decode"].map (·, handle)
+  ["print", "wf", "accept-print", "accept-asm", "accept-assembles", "accept-decode", "hist", "accept-hist"].map (·, handle)
 
 end Avo.Drv.C11
